@@ -270,6 +270,7 @@ func ruleHash(state *core.BuildState, target *core.BuildTarget, runtime bool) []
 				h.Write([]byte(output))
 			}
 			hashOptionalBool(h, target.Test.Sandbox)
+			hashBool(h, target.Test.NoOutput)
 			h.Write([]byte(target.GetTestCommand(state)))
 			h.Write([]byte(target.Test.ArgsPlaceholder))
 		}
